@@ -173,6 +173,77 @@ def _perm_events(args):
     return ev
 
 
+def _gbfeat_events(args):
+    """a non-gene GenBank feature read by the library's parser: the feature interval AND the collection inferred around it
+    are named / identified by the same documented priority pick over the record's qualifiers (judged as `pick` events)"""
+    seed, n = args
+    setup_repo_import()
+    from inscripta.biocantor.io.genbank.constants import GenBankParserType
+    from inscripta.biocantor.io.genbank.parser import parse_genbank
+
+    rnd = random.Random(seed)
+    pool = ["standard_name", "name", "label", "operon", "id"]   # (no rank-0 keys here: their deviation is judged elsewhere)
+    ev = []
+    for _ in range(n):
+        keys = rnd.sample(pool, rnd.randrange(1, len(pool) + 1))
+        if rnd.random() < 0.7 and "id" not in keys:
+            keys.append("id")
+        spelled = [rnd.choice(NAME_SPELLINGS[k]) for k in keys]
+        rnd.shuffle(spelled)
+        q = {k: ["val_" + k, "second"] for k in spelled}
+        text = _genbank_text([(rnd.choice(["regulatory", "repeat_region", "misc_binding"]), [(10, 40)], 1, q)], 120)
+        try:
+            mode = rnd.choice([GenBankParserType.LOCUS_TAG, GenBankParserType.HYBRID, GenBankParserType.SORTED])
+            recs = list(parse_genbank(io.StringIO(text), gbk_type=mode))
+            fc = recs[0].annotation.feature_collections[0]
+            fi = fc.feature_intervals[0]
+            got = [(fc.feature_collection_name, fc.feature_collection_id), (fi.feature_name, fi.feature_id)]
+        except Exception as ex:
+            got = [("!" + type(ex).__name__, "!"), ("!", "!")]
+        for (nm, fid) in got:
+            ev.append(["pick", [[k, v] for k, v in q.items()], nm if nm is not None else "<none>",
+                       fid if fid is not None else "<none>"])
+    return ev
+
+
+def _gbprio_events(args):
+    """an mRNA record and its CDS record that both say /product, /gene, /transcript_id or /protein_id, differently: the
+    transcript-level record is asked first, the CDS record is the fall-back (get_qualifier_from_tx_or_cds_features)"""
+    seed, n = args
+    setup_repo_import()
+    from inscripta.biocantor.io.genbank.constants import GenBankParserType
+    from inscripta.biocantor.io.genbank.parser import parse_genbank
+
+    rnd = random.Random(seed)
+    ev = []
+    KEYS = [("product", "product"), ("gene", "transcript_symbol"), ("transcript_id", "transcript_id"),
+            ("protein_id", "protein_id")]
+    for _ in range(n):
+        blocks = [(10, 40), (60, 90)]
+        mq = {"locus_tag": ["LT_1"]}
+        cq = {"locus_tag": ["LT_1"], "codon_start": ["1"]}
+        rows = []
+        for key, attr in KEYS:
+            m = rnd.choice(["", "m_" + key])
+            c = rnd.choice(["", "c_" + key])
+            if m:
+                mq[key] = [m]
+            if c:
+                cq[key] = [c]
+            rows.append([key, m, c])
+        feats = [("gene", [(10, 90)], 1, {"locus_tag": ["LT_1"], "gene": ["gsym"]}), ("mRNA", blocks, 1, mq), ("CDS", blocks, 1, cq)]
+        rnd.shuffle(feats)
+        text = _genbank_text(feats, 150)
+        try:
+            recs = list(parse_genbank(io.StringIO(text), gbk_type=rnd.choice([GenBankParserType.LOCUS_TAG, GenBankParserType.HYBRID])))
+            t = recs[0].annotation.genes[0].transcripts[0]
+            got = [str(getattr(t, attr) or "") for _key, attr in KEYS]
+        except Exception as ex:
+            got = ["!" + type(ex).__name__] * len(KEYS)
+        ev.append(["gbprio", [r + [g] for r, g in zip(rows, got)]])
+    return ev
+
+
 def _gffmerge_events(args):
     """top-level non-gene features with 2..4 children that carry tool-specific attributes: the parsed feature interval's
     qualifiers are the key-wise sorted union of all of them"""
@@ -357,6 +428,10 @@ def run(chk):
     parts = pmap(_gff_pick_events, [(orders[i::16], chk.seed * 29 + i) for i in range(16)])
     evs += [e for p in parts for e in p]
     chk.extra["gff3_attribute_orders"] = len(orders)
+    parts = pmap(_gbprio_events, [(chk.seed * 43 + i, 20 if quick else 300) for i in range(16)])
+    evs += [e for p in parts for e in p]
+    parts = pmap(_gbfeat_events, [(chk.seed * 41 + i, 20 if quick else 300) for i in range(16)])
+    evs += [e for p in parts for e in p]
     parts = pmap(_gffmerge_events, [(chk.seed * 37 + i, 25 if quick else 400) for i in range(16)])
     evs += [e for p in parts for e in p]
     chk.validate("C18Trace", evs, shard=4000, label="quals", keyfn=_key)
